@@ -123,6 +123,7 @@ INVALID_LINES = [
     "remark", "20 remark", "permit 256 any any", "permit foo any any", "permit ip any any 5tuple", "!", "exit",
     "permit tcp any gt any", "deny ip host any", "permit ip 1.1.1.1 any", "PERMIT ip any any", "allow ip any any",
     "permit udp any lt 70000 any", "object-group network X", "host 10.0.0.1", "10.0.0.0/24",
+    "ip access-list extended OTHER", "ip access-list OTHER", "ip access-list standard 10", "end",
 ]
 
 
